@@ -1,5 +1,6 @@
 (* C19 — Equality, ordering and hashing are structural and mutually consistent.
-   Statements only; every proof is `exact <lemma>` (Proofs/EqOrdProofs.v, EqOrdCmpProofs.v, EqOrdDescProofs.v).
+   Statements only; every proof is `exact <lemma>` (Proofs/EqOrdProofs.v, EqOrdCmpProofs.v, EqOrdDescProofs.v,
+   EqOrdPolProofs.v, EqOrdHashProofs.v).
 
    Model (Ms/EqOrdModel.v; /repo as of 32d9f676): `preorder` = what Terminal::pre_order_iter yields
    (discriminant, number of children, payload), `eq_iter` = the truncating zip with the per-pair rules of
@@ -178,3 +179,107 @@ Example C19_policy_cmp_examples :
   cpol_cmp N.compare (QAnd [QKey 0; QKey 1]) (QAnd [QKey 0; QKey 1; QKey 2]) = EqOrdModel.Ok Lt /\
   cpol_cmp N.compare (QThresh 1 [QKey 0; QKey 1]) (QOr [(1, QKey 0); (1, QKey 1)]) = EqOrdModel.Ok Gt.
 Proof. exact pol_cmp_examples. Qed.
+
+(* ---- Hash of descriptors and of concrete policies (Ms/EqOrdHashModel.v, Proofs/EqOrdHashProofs.v):
+        `desc_feed` / `cpol_feed` = the sequence of calls `Hash::hash` makes on the Hasher (derived impls: discriminant,
+        then fields in declaration order; Vec: length prefix, elements; the hand-written `impl Hash for Tr`: internal key,
+        tree, cache skipped), with `hash_raw` for the miniscripts inside; a key feeds itself as one opaque atom.
+        `policy::Semantic` has no `Hash` impl in /repo (derive(Clone, PartialEq, Eq) only): nothing to state for it.
+        (a) `==` implies equal feeds (the Hash/Eq contract; all the property requires);
+        (b) the feed is a prefix code, hence injective: hashing is structural (stronger than required);
+        (c) the derived `clone` is the identity on values. *)
+From Verif Require Import EqOrdRun EqOrdDescModel EqOrdHashModel EqOrdHashProofs.
+
+Theorem C19_ms_hash_raw_prefix_code : forall a b r1 r2, hash_raw a ++ r1 = hash_raw b ++ r2 -> a = b /\ r1 = r2.
+Proof. exact hash_raw_app_inj. Qed.
+Print Assumptions C19_ms_hash_raw_prefix_code.
+
+Theorem C19_ms_hash_raw_inj : forall a b, hash_raw a = hash_raw b -> a = b.
+Proof. exact hash_raw_inj. Qed.
+Print Assumptions C19_ms_hash_raw_inj.
+
+Theorem C19_desc_hash_eq_contract : forall a b, desc_eq eq_iter a b = true -> desc_feed a = desc_feed b.
+Proof. exact desc_hash_eq_contract. Qed.
+Print Assumptions C19_desc_hash_eq_contract.
+
+Theorem C19_desc_hash_prefix_code : forall a b r1 r2, desc_feed a ++ r1 = desc_feed b ++ r2 -> a = b /\ r1 = r2.
+Proof. exact desc_feed_app_inj. Qed.
+Print Assumptions C19_desc_hash_prefix_code.
+
+Theorem C19_desc_hash_structural : forall a b, desc_feed a = desc_feed b -> a = b.
+Proof. exact desc_feed_inj. Qed.
+Print Assumptions C19_desc_hash_structural.
+
+Theorem C19_desc_hash_eq_iff : forall a b, desc_feed a = desc_feed b <-> desc_eq eq_iter a b = true.
+Proof. exact desc_feed_eq_iff. Qed.
+Print Assumptions C19_desc_hash_eq_iff.
+
+(* values with a cache history (structure, spend-info cache) *)
+Theorem C19_desc_hash_eq_contract_any_history : forall x y, cdesc_eq eq_iter x y = true -> cdesc_feed x = cdesc_feed y.
+Proof. exact cdesc_hash_eq_contract. Qed.
+Print Assumptions C19_desc_hash_eq_contract_any_history.
+
+Theorem C19_desc_hash_history_independent : forall a c c', cdesc_feed (mkCD a c) = cdesc_feed (mkCD a c').
+Proof. exact cdesc_feed_history_independent. Qed.
+Print Assumptions C19_desc_hash_history_independent.
+
+Theorem C19_desc_hash_structural_any_history : forall x y, cdesc_feed x = cdesc_feed y -> cd_desc x = cd_desc y.
+Proof. exact cdesc_feed_inj. Qed.
+Print Assumptions C19_desc_hash_structural_any_history.
+
+Theorem C19_desc_clone_id : forall d, desc_clone d = d.
+Proof. exact desc_clone_id. Qed.
+Print Assumptions C19_desc_clone_id.
+
+Theorem C19_policy_hash_eq_contract : forall a b, cpol_eqb a b = true -> cpol_feed a = cpol_feed b.
+Proof. exact cpol_hash_eq_contract. Qed.
+Print Assumptions C19_policy_hash_eq_contract.
+
+Theorem C19_policy_hash_prefix_code : forall a b r1 r2, cpol_feed a ++ r1 = cpol_feed b ++ r2 -> a = b /\ r1 = r2.
+Proof. exact cpol_feed_app_inj. Qed.
+Print Assumptions C19_policy_hash_prefix_code.
+
+Theorem C19_policy_hash_structural : forall a b, cpol_feed a = cpol_feed b -> a = b.
+Proof. exact cpol_feed_inj. Qed.
+Print Assumptions C19_policy_hash_structural.
+
+Theorem C19_policy_hash_eq_iff : forall a b, cpol_feed a = cpol_feed b <-> cpol_eqb a b = true.
+Proof. exact cpol_feed_eq_iff. Qed.
+Print Assumptions C19_policy_hash_eq_iff.
+
+(* concrete and semantic policies (the same model type; a semantic policy stays And/Or-free) *)
+Theorem C19_policy_clone_id : forall p, cpol_clone p = p.
+Proof. exact cpol_clone_id. Qed.
+Print Assumptions C19_policy_clone_id.
+
+Theorem C19_policy_clone_semantic : forall p, is_semantic p = true -> is_semantic (cpol_clone p) = true.
+Proof. exact cpol_clone_semantic. Qed.
+Print Assumptions C19_policy_clone_semantic.
+
+Local Open Scope N_scope.
+Example C19_desc_hash_examples :
+  desc_feed (DTr 0 [(1, e_pk 1); (2, e_pk 2); (2, e_pk 3)]) <> desc_feed (DTr 0 [(2, e_pk 1); (2, e_pk 2); (1, e_pk 3)]) /\
+  desc_feed (DTr 0 []) = [RI 5; RK 0; RI 0] /\
+  desc_feed (DTr 0 [(0, e_pk 1)]) = [RI 5; RK 0; RI 1; RU 1; RC 0; RI 13; RI 2; RK 1] /\
+  desc_feed (DWsh (MMulti 1 [0; 1])) = [RI 4; RI 26; RU 1; RU 2; RK 0; RK 1] /\
+  desc_feed (DWsh (MSortedMulti 1 [0; 1])) = [RI 4; RI 27; RU 1; RU 2; RK 0; RK 1] /\
+  desc_feed (DWsh (MMulti 2 [0; 1])) <> desc_feed (DWsh (MMulti 1 [0; 1])) /\
+  desc_feed (DWsh (MMulti 1 [0; 1; 2])) <> desc_feed (DWsh (MMulti 1 [0; 1])) /\
+  desc_feed (DShWsh (e_pk 0)) = [RI 3; RI 0; RI 13; RI 2; RK 0] /\
+  desc_feed (DSh (e_pk 0)) = [RI 3; RI 2; RI 13; RI 2; RK 0] /\
+  desc_feed (DShWpkh 0) = [RI 3; RI 1; RK 0] /\
+  desc_eq eq_iter (DTr 0 [(0, e_pk 1)]) (DTr 0 [(0, e_pk 1)]) = true.
+Proof. exact desc_feed_examples. Qed.
+
+Example C19_policy_hash_examples :
+  cpol_feed (QOr [(9, QKey 0); (1, QKey 1)]) = [RI 10; RU 2; RU 9; RI 2; RK 0; RU 1; RI 2; RK 1] /\
+  cpol_feed (QOr [(1, QKey 0); (9, QKey 1)]) <> cpol_feed (QOr [(9, QKey 0); (1, QKey 1)]) /\
+  cpol_feed (QThresh 1 [QKey 0; QKey 1]) = [RI 11; RU 1; RU 2; RI 2; RK 0; RI 2; RK 1] /\
+  cpol_feed (QThresh 2 [QKey 0; QKey 1]) <> cpol_feed (QThresh 1 [QKey 0; QKey 1]) /\
+  cpol_feed (QThresh 1 [QKey 0; QKey 1; QKey 2]) <> cpol_feed (QThresh 1 [QKey 0; QKey 1]) /\
+  cpol_feed (QAnd [QKey 0; QKey 1]) = [RI 9; RU 2; RI 2; RK 0; RI 2; RK 1] /\
+  cpol_feed (QAfter 500000000) = [RI 3; RI 1; RW 500000000] /\
+  cpol_feed (QOlder 65537) = [RI 4; RW 65537] /\
+  cpol_feed (QAnd [QAnd [QKey 0]; QKey 1]) <> cpol_feed (QAnd [QAnd [QKey 0; QKey 1]]) /\
+  cpol_eqb (QOr [(9, QKey 0); (1, QKey 1)]) (QOr [(9, QKey 0); (1, QKey 1)]) = true.
+Proof. exact cpol_feed_examples. Qed.
